@@ -65,6 +65,10 @@ class Seam:
         self.peak = 0
         self.reorders = 0
         self.active = False
+        # None: the library's own sifting decides the final order; 'reverse' / 'rotate': the
+        # reordering triggered by a request ENDS IN that permutation of the current order
+        # (the heuristic is free to choose any order, so every choice must be harmless)
+        self.target_mode = None
 
     def available(self):
         return self.orig is not None
@@ -90,6 +94,13 @@ class Seam:
     def _reorder(self, bdd, *a, **kw):
         if self.active:
             self.reorders += 1
+            if self.target_mode and not a and not kw and len(bdd.vars) > 1:
+                n = len(bdd.vars)
+                if self.target_mode == 'reverse':
+                    tgt = {v: n - 1 - l for v, l in bdd.vars.items()}
+                else:
+                    tgt = {v: (l + 1) % n for v, l in bdd.vars.items()}
+                return self.orig_reorder(bdd, tgt)
         return self.orig_reorder(bdd, *a, **kw)
 
     def __enter__(self):
@@ -482,8 +493,9 @@ def run_once(seam, oi, auto, steps, mode):
     try:
         if mode == 'off':
             sc.bdd.configure(reordering=False)
-        elif mode == 'force':
+        elif mode in ('force', 'force-reverse', 'force-rotate'):
             sc.enable(10 ** 9)
+            seam.target_mode = mode[6:] or None
         elif mode == 'nat':
             sc.enable(steps[0][3])
         elif mode == 'cfg':
@@ -494,7 +506,7 @@ def run_once(seam, oi, auto, steps, mode):
             if not applicable(name, sc, i, j):
                 info['skipped'] = True
                 return None, info
-            seam.arm(dev if mode == 'force' else ())
+            seam.arm(dev if mode.startswith('force') else ())
             try:
                 r = OPS[name][0](sc, i, j)
             except Exception as e:  # noqa
@@ -521,6 +533,7 @@ def run_once(seam, oi, auto, steps, mode):
         return True, info
     finally:
         _bdd.REORDER_STARTS = saved_starts
+        seam.target_mode = None
         seam.disarm()
 
 
@@ -573,6 +586,19 @@ def task_single(t):
                 except Violation as v:
                     rec('forced:' + _sig(name, v), v.what + ' (forced at position %d)' % k,
                         dict(base, mode='force', fire=[k]), **v.detail)
+                rep.add('evaluations')
+                rep.add('schedules')
+                # the same deviation, but the reordering ends in a chosen permutation
+                fmode = ('force-reverse', 'force-rotate')[(k + i + j) % 2]
+                try:
+                    ok, inf = run_once(seam, oi, auto, [(name, i, j, (k,))], fmode)
+                    if inf['reorders']:
+                        rep.add('runs_with_chosen_final_order')
+                except Violation as v:
+                    rec('forced:' + _sig(name, v),
+                        v.what + ' (forced at position %d, reordering ends in the %s order)' % (
+                            k, fmode[6:] + 'd'),
+                        dict(base, mode=fmode, fire=[k]), **v.detail)
                 rep.add('evaluations')
                 rep.add('schedules')
             if natural:
@@ -715,7 +741,8 @@ def replay(case):
     seam = Seam()
     if 'mode' in case and seam.available():
         name, i, j = case['op'], case['i'], case['j']
-        dev = {'off': (), 'force': tuple(case.get('fire', ())),
+        fire = tuple(case.get('fire', ()))
+        dev = {'off': (), 'force': fire, 'force-reverse': fire, 'force-rotate': fire,
                'nat': case.get('threshold'), 'cfg': case.get('starts')}[case['mode']]
         with seam:
             try:
